@@ -340,4 +340,13 @@ for _k in ('C01', 'C02', 'C07'):
     if not any(sc[0] == 'longpath' for sc in PROPS[_k]['scenarios']):
         PROPS[_k]['scenarios'] = PROPS[_k]['scenarios'] + [('longpath', 2, 48)]
 
+# C17 end to end: the example's own server (start_server -> AppRouter::handle) on a loopback socket
+PROPS['C17']['scenarios'] = PROPS['C17']['scenarios'] + [('ocie2e', 640, 6400)]
+PROPS['C17']['primary'] = PROPS['C17']['primary'] + ['OciE2E']
+PROPS['C17']['rule'] += ('; ocie2e: the same method x URL stream sent as HTTP requests to the example server started in-process on a loopback socket; a bare 404/405 (no content type) is the router\'s "no route"; '
+    'compared with the model routers of the regenerated table (OciE2E). If no loopback socket can be opened the channel reports nothing')
+PROPS['C17']['explanation'] += (' END TO END: besides the route table (regenerated, and executed by the harness on wayfind routers built from it), the example\'s own server is run: harness-oci links the example crate, '
+    'starts start_server on 127.0.0.1:0 and sends one HTTP/1.1 request per generated (method, URL); whether AppRouter::handle reached a handler must agree with the model routers (OciE2E) - this is what sees a change in the '
+    'request dispatch of examples/oci/src/router.rs (seeded change C17-e).')
+
 NOT_APPLICABLE = {}
